@@ -115,6 +115,36 @@ def depth_of(t):
     return 1 + max([depth_of(v) for v in t.values() if isinstance(v, dict)] or [0])
 
 
+def odd_keys(ctx):
+    """separator-free keys made of characters that an escaping / quoting / normalising layer in front of rollout could treat
+    specially: backslashes (also right before the separator once flattened), NULs, quotes, brackets, %, {}, whitespace,
+    non-ASCII, keys equal to Python literals — at every depth, optional or not"""
+    odd = ["C:\\", "a\\", "\\", "\\\\", "\x00", "k\x00", "'", '"', "[0]", "{}", "%s", " ", "\t", "é", "None", "0", "...", "a b", "a\\b"]
+    for sep in (".", "__", "::", "/"):
+        for k1 in odd:
+            if sep in k1 or not sep_safe(k1, sep):
+                continue
+            for k2 in ("x", k1, odd[(odd.index(k1) + 3) % len(odd)]):
+                if sep in k2 or not sep_safe(k2, sep):
+                    continue
+                for tree in ({k1: {k2: 1, "y": 2}}, {"p": {k1: {k2: None}}, "q": 3}, {k1: {optional(k2): "v"}}, {k1: 5, "z": {k1: 6}}):
+                    ctx.count("odd_key_trees")
+                    flat_d = dict(flatten(tree, sep))
+                    try:
+                        got = rollout(flat_d, separator=sep)
+                    except Exception as e:  # noqa: BLE001
+                        ctx.violation("rollout raised %s on a flattened mapping" % type(e).__name__, separator=sep, flat=safe_repr(flat_d))
+                        continue
+                    if not equal_mapping(got, tree):
+                        ctx.violation("rollout(flatten(m)) != m", separator=sep, nested=safe_repr(tree), flat=safe_repr(flat_d), got=safe_repr(got))
+                        return
+                    same = rollout(dict(tree), separator=sep)
+                    if not equal_mapping(same, tree):
+                        ctx.violation("rollout of an already nested mapping is not the identity", separator=sep, nested=safe_repr(tree),
+                                      got=safe_repr(same))
+                        return
+
+
 def stale_state(ctx):
     """the round trip and the identity must hold whatever rollout was asked before: calls that FAIL below the top level
     (a non-str key, a `...` key with another value, a leaf reused as a node — at depth 1, 2, 3) on the very mapping object
@@ -220,6 +250,7 @@ def run(ctx):
         exp.append(encode.tostr(got))
         info.append((sep, flat_d))
     stale_state(ctx)
+    odd_keys(ctx)
     res = model.run_batch(reqs)
     bad = 0
     for r, e, (sep, flat_d) in zip(res, exp, info):
